@@ -1,7 +1,7 @@
 # C12 – Retry middleware: bounded attempts, back-off, first success wins, error kept.
 #
 # Request (see harness/cmd/c12/main.go, lean/Driver/C12.lean):
-#   retry mr= init= max= mul=p/q rf=a/b el= hook= outs=<f|s><k>,… cancel=<j|-> sleep=<j>:<ns>|-   (inputs)
+#   retry mr= init= max= mul=p/q rf=a/b el= hook= log= outs=<f|s><k>,… cancel=<j|-> ctxend=<call|pre|deadline|-> sleep=<j>:<ns>|-   (inputs)
 #         conc=<M>:<idx>:<stagger>|-                                                              (input: M messages through one instance)
 #         n= d= ts= te= tr= tq=                                                                    (recorded from the run)
 # Observation: n=<calls> hooks=<num>:<delay>,… res=<msgs>/<err> time=ok
@@ -45,7 +45,7 @@ PROP = {
     "search_seeds": 3,
     "rule": "Real middleware.Retry with the real cenkalti/backoff and the real clock. logic: MaxRetries -1..8 x first success at call "
             "0..1+MaxRetries or never x hook set/unset, zero intervals, exhaustively; cancel: the context cancelled from inside call j for "
-            "every j (MaxRetries 1,2,3,4,6,8 quick / 1..8 thorough) with the racing wait >= 10 ms; schedule: 260 (quick) / 2600 (thorough) seeded "
+            "every j (MaxRetries 1,2,3,4,6,8 quick / 1..8 thorough) with the racing wait >= 10 ms; cancel.zero: waits of exactly 0 (InitialInterval 0, or 1 ms with MaxInterval 0) x the context ending during call j for every j <= MaxRetries-2 (MaxRetries 2..8) by cancel() inside the call, by being cancelled before Retry is invoked, or by a deadline that falls during the call - at most ONE call after the context ended is accepted there (closed ctx.Done() racing time.After(0)); schedule: 260 (quick) / 2600 (thorough) seeded "
             "configurations, InitialInterval 0..3 ms, MaxInterval up to 5 ms, Multiplier {1, 3/2, 2, 3}, RandomizationFactor {0, 1/2, 1}, "
             "fail^i then succeed or fail forever, 0..2 output messages per call (also from failing calls); elapsed: MaxElapsedTime 30 ms with "
             "a call sleeping 150 ms at call 0..4, MaxElapsedTime 2..12 ms against waits of 1..6 ms, and 10 s (no effect); elapsed.wait: the wait before call k exceeds what is left of MaxElapsedTime by >= 40 ms (300 ms vs 60 ms, 20/40/80 ms vs 100 ms, ...): the call count is predicted by counting; concurrent: 2..4 messages staggered through ONE middleware instance and ONE wrapped handler, each message reported as its own case and held to its own schedule; odd: "
@@ -64,8 +64,9 @@ PROP = {
         "Go runtime: monotonic clock, time.After, context cancellation; math/rand.Float64 in [0,1)",
     ],
     "assumptions": [
-        "which alternative a select with both channels ready takes is not determined by Go; the harness makes the racing wait >= 10 ms in "
-        "cancellation cases and re-runs a case up to 2 more times before reporting a call made after the cancelling one",
+        "which alternative a select with both channels ready takes is not determined by Go: after the context ended, ONE further call is "
+        "accepted when the wait before it was shorter than 10 ms (reported delay, else measured gap), none when it was longer, never two; the "
+        "harness re-runs a scenario up to 2 more times before reporting a call made after the context ended",
         "a context deadline that precedes the timer's due time by more than 25 ms wakes the select first (Go runtime: the parked select is "
         "resumed by the first event); the harness re-runs a scenario up to 2 more times before such a call is reported",
         "real time is sampled: waits are checked as lower bounds only (gap >= reported delay >= model lower bound), never as upper bounds",
